@@ -2229,7 +2229,7 @@ def _pack_layout(layout):
 
         # If we managed to lose the drop type entirely
         if not isinstance(layout, ak._util.uniontypes):
-            return layout
+            return _pack_layout(layout)
 
         # Pack simplified layout
         tags = nplike.asarray(layout.tags)
@@ -2388,9 +2388,16 @@ def packed(array, highlevel=True, behavior=None):
     )
 
     def transform(layout, depth=1, user=None):
-        return ak._util.transform_child_layouts(
+        out = ak._util.transform_child_layouts(
             transform, _pack_layout(layout), depth, user
         )
+        # packing a union content may turn it into an indexed or option-type
+        # array, which an option-type parent must not contain directly
+        if isinstance(out, ak._util.optiontypes) and isinstance(
+            out.content, ak._util.optiontypes + ak._util.indexedtypes
+        ):
+            out = out.simplify()
+        return out
 
     out = transform(layout)
 
